@@ -543,7 +543,13 @@ func (c *converter) Exists(path string, valueUsed bool) (string, error) {
 
 func (c *converter) ReadFile(path string, valueUsed bool) (string, error) {
 	helper := c.nextHelperVar()
-	c.VarAssignment(helper, fmt.Sprintf("$(cat \"%s\")", path), false)
+	name := c.varName(helper, false)
+
+	// Command substitution removes all trailing newlines. To only remove the final newline of the file,
+	// a guard character is printed after the content and removed again afterwards.
+	c.VarAssignment(helper, fmt.Sprintf("$(cat < \"%s\"; printf x)", path), false) // The file is redirected to make sure a path like "-n" is not interpreted as an option.
+	c.addLine(fmt.Sprintf(`%s="${%s%%x}"`, name, name))
+	c.addLine(fmt.Sprintf(`%s="${%s%%$'\n'}"`, name, name))
 	return c.VarEvaluation(helper, valueUsed, false)
 }
 
